@@ -237,12 +237,15 @@ class MPS(DNAS):
         training_status = {m: m.training for m in self.seed.modules()}
         sampled = {m: m.theta_alpha for m in self.seed.modules() if hasattr(m, 'theta_alpha')}
         # no autograd graph is needed (nor should be left behind in the quantizers) by a conversion
-        with torch.no_grad():
-            mod, _, _ = convert(self.seed, self._input_example, 'export')
-        for m, status in training_status.items():
-            m.training = status
-        for m, theta_alpha in sampled.items():
-            m.theta_alpha = theta_alpha
+        try:
+            with torch.no_grad():
+                mod, _, _ = convert(self.seed, self._input_example, 'export')
+        finally:
+            # also when the conversion raises
+            for m, status in training_status.items():
+                m.training = status
+            for m, theta_alpha in sampled.items():
+                m.theta_alpha = theta_alpha
         return mod
 
     def summary(self) -> Dict[str, Dict[str, Any]]:
